@@ -82,7 +82,9 @@ def load_findings(prop_id):
 # ---------------------------------------------------------------------------------------------
 
 _PROP = None
-_CHUNK_TIMEOUT = 600
+_CHUNK_TIMEOUT = 900
+_STOP = None          # shared counter of violating runs; the search stops early once it reaches STOP_AFTER
+STOP_AFTER = 12
 
 
 def _worker_chunk(args):
@@ -93,6 +95,9 @@ def _worker_chunk(args):
            "known": collections.Counter(), "digests": [], "steps": 0, "clock": 0, "cases": set(), "fold": 0}
     try:
         for i in range(start, stop):
+            if _STOP is not None and _STOP.value >= STOP_AFTER:
+                out["stopped_early"] = True
+                break
             run_seed = derive(seed, prop_id, i)
             case = prop.generate(Rng(run_seed), tier, i)
             res = prop.run(case)
@@ -110,6 +115,9 @@ def _worker_chunk(args):
                 out["digests"].append((i, res.digest))
             if want_samples and len(out["samples"]) < 3:
                 out["samples"].append(case)
+            if res.violations and _STOP is not None:
+                with _STOP.get_lock():
+                    _STOP.value += 1
             if res.violations and len(out["violations"]) < 5:
                 out["violations"].append({"i": i, "run_seed": run_seed, "case": case,
                                           "violations": [v.to_json() for v in res.violations]})
@@ -299,6 +307,8 @@ def run_check(prop, tier, seed, jobs, runs_override=None):
         for i, d in out["digests"]:
             agg["digests"][i] = d
 
+    global _STOP
+    _STOP = multiprocessing.get_context("fork").Value("i", 0)
     try:
         if jobs <= 1:
             for t in tasks:
@@ -313,6 +323,9 @@ def run_check(prop, tier, seed, jobs, runs_override=None):
         print("HARNESS-ERROR: a worker died (wall-clock watchdog or crash): %s" % e)
         return EXIT_HARNESS
     search_wall = time.time() - t0
+    if _STOP.value >= STOP_AFTER:
+        notes.append("search stopped early after %d violating runs (%d of %d runs executed)" % (_STOP.value, agg["n"], n_runs))
+        print("search stopped early: %d violating runs after %d of %d runs" % (_STOP.value, agg["n"], n_runs))
 
     # post-hoc known findings met during the search
     for key, count in sorted(agg["known"].items()):
